@@ -260,10 +260,14 @@ def build(cfg, world, shared=None):
 
     start, end = ts(cfg['start']), ts(cfg['end'])
     u = cfg['universe']
-    if u['kind'] == 'static':
+    if shared is not None and 'universe' in shared:
+        universe = shared['universe']          # the same universe object serves several sessions
+    elif u['kind'] == 'static':
         universe = StaticUniverse(list(u['assets']))
     else:
         universe = DynamicUniverse({a: (ts(d) if d else None) for a, d in u['dates'].items()})
+    if shared is not None and shared.get('share_universe'):
+        shared['universe'] = universe
     if shared is not None and 'source' in shared:
         source = shared['source']
     else:
@@ -584,10 +588,15 @@ def check_signal_values(name, sig, streams, lookbacks, acc, prop='C16'):
                 V(prop, 'signal-raised/%s' % name, '%s(%s, %s) raised %r after %d prices' % (name, asset, lb, e, len(prices)))
             if name == 'momentum':
                 want = d_momentum(prices, lb)
-                ok = core.close(got, want, abs(want) + 1)
+                # the value is a product of period returns 1 + r_t evaluated in doubles: where a price collapses by a
+                # factor c in one period, 1 + r_t = c carries a relative rounding of ~1e-16 / c, which no implementation
+                # of "compound the window's returns" can avoid; the tolerance grows accordingly (1e-9 for c >= 1e-6)
+                w = prices[-(lb + 1):]
+                cond = max([1.0] + [w[i - 1] / w[i] for i in range(1, len(w))])
+                ok = core.close(got, want, abs(want) + 1, rel=1e-9 + 4e-16 * cond)
             elif name == 'sma':
                 want = d_sma(prices, lb)
-                ok = core.close(got, want, abs(want))
+                ok = abs(F(float(got)) - want) <= Fraction(1, 10 ** 9) * abs(want)       # purely relative: prices are positive
             else:
                 want = d_vol(prices, lb)
                 ok = abs(float(got) - want) <= 1e-9 * (abs(want) + 1e-3)
@@ -720,7 +729,8 @@ SYMS = ['AAA', 'BBB', 'CCC', 'DDD', 'EEE', 'FFF', 'GGG', 'HHH']
 
 
 def gen_cfg(rng, alpha_kinds=('fixed',), universe_kinds=('static',), max_days=250, full_data=True,
-            burn=True, rebalances=('daily', 'weekly', 'end_of_month', 'buy_and_hold'), n_assets=None, nan_cells=None):
+            burn=True, rebalances=('daily', 'weekly', 'end_of_month', 'buy_and_hold'), n_assets=None, nan_cells=None,
+            expensive=False):
     n = n_assets or rng.randint(1, 5)
     syms = SYMS[:n]
     assets = ['EQ:' + s for s in syms]
@@ -755,6 +765,10 @@ def gen_cfg(rng, alpha_kinds=('fixed',), universe_kinds=('static',), max_days=25
     mk = {'seed': rng.randint(0, 2 ** 31), 'assets': syms, 'first': first.isoformat(), 'last': (d1 + dt.timedelta(days=3)).isoformat(),
           'missing_p': rng.choice([0.0, 0.0, 0.05, 0.15]), 'adjust': rng.random() < 0.5,
           'ratio': {s: rng.choice([1.0, 1.0, 0.5, 0.83]) for s in syms}}
+    if expensive and rng.random() < 0.3:
+        # one or two assets priced at a sizeable fraction of the account: targets of 0, 1, 2 ... units, positions that
+        # must be sold down to nothing when the allocation falls below one unit's price
+        mk['level'] = {s_: cfg['cash'] * rng.choice([0.03, 0.1, 0.3, 0.6, 1.5]) / max(1, n) for s_ in rng.sample(syms, min(len(syms), rng.randint(1, 2)))}
     if nan_cells and rng.random() < 0.6:
         mk['nan_p'] = rng.choice([0.03, 0.1, 0.25])
         if nan_cells == 'any':
